@@ -818,6 +818,26 @@ def suite_ser(g, scale):
             g.emit("bufchk64 %s" % u)
         g.emit("wf64 %s" % u)
         g.emit("dig64 %s" % x)
+    # 1b. several serializations in flight: the returned byte slices stay what they were
+    made = [l.split(" ")[1] for l in g.lines if l.startswith("ser64 ")]
+    for _ in range(int(3 * scale) + 1):
+        if len(made) >= 2:
+            g.emit("sermany64 %s" % " ".join(r.sample(made, min(len(made), r.choice([2, 3, 6, 12])))))
+            g.count("ser64:sermany")
+    # 1c. more buckets than a 32-bit bitmap can have containers (65536), high keys included
+    x = g.fresh("m")
+    g.emit("new64 %s" % x)
+    cnt = r.choice([65537, 66000, 70000])
+    start = r.choice([0, 5, (0x7FFFFFF0 << 32) + 9, ((1 << 32) - cnt - 3) << 32])
+    g.emit("addstride64 %s %d %d %d" % (x, start, (1 << 32) + r.choice([0, 1]), cnt))
+    g.emit("card64 %s" % x)
+    g.emit("ser64 %s" % x)
+    g.emit("wf64 %s" % x)
+    for entry in ENTRIES:
+        y = g.fresh("d")
+        g.emit("rd64 %s %s %s%s" % (y, entry, x, r.choice(["", " extra=3"])))
+        g.emit("eq64 %s %s" % (y, x))
+    g.count("ser64:manybuckets")
     # 2. small streams: spec reading of the bytes, truncation sweep, header corruption
     for _ in range(int(10 * scale)):
         x = g.fresh("s")
